@@ -474,8 +474,6 @@ def _show(x):
 # K2e  every registered extractor hands the path argument to the metadata of every result
 # ---------------------------------------------------------------------------------------
 
-F_ARCHIVE_CWD = "C04-archive-member-without-archive-path-resolved-against-cwd"
-
 _FIXTURE = {
     "read_docx": "modern_ms/headings.docx", "read_pptx": "modern_ms/pptx_table.pptx", "read_xlsx": "modern_ms/mwe.xlsx",
     "read_doc": "legacy_ms/headings.doc", "read_ppt": "legacy_ms/slide_with_notes.ppt", "read_xls": "legacy_ms/mwe.xls",
@@ -527,8 +525,6 @@ def k2_extractors(ctx):
         if name == "read_archive":
             # members are named <archive path>!/<member>
             if path is None:
-                if _known(ctx, F_ARCHIVE_CWD):
-                    continue
                 ctx.require(all(v is None or not v.startswith(cwd) for v in got),
                             "member-metadata-derived-from-working-directory", extractor=name, result=k, got=repr(got))
             else:
@@ -596,6 +592,10 @@ _RTF_LIFTED = ("_strip_rtf_full_with_pages", "_remove_ignorable_groups", "_is_sk
                "_strip_rtf_simple", "_extract_metadata", "_decode_hex_escape", "_detect_code_page")
 
 
+def _rtf_lifted_names(m):
+    return [n for n in _RTF_LIFTED if hasattr(m._RtfParser, n)]
+
+
 def _rtf_regex_globals(m):
     """names of the module's compiled patterns that the lifted methods refer to (from their own code
     objects, so a pattern added to / removed from the module is followed without editing this file)"""
@@ -606,7 +606,7 @@ def _rtf_regex_globals(m):
         for c in code.co_consts:
             if isinstance(c, types.CodeType):
                 walk(c)
-    for name in _RTF_LIFTED:
+    for name in _rtf_lifted_names(m):
         walk(getattr(m._RtfParser, name).__code__)
     return sorted(n for n in names if isinstance(getattr(m, n, None), re.Pattern))
 
@@ -691,9 +691,10 @@ class _CodePageByte:
         return cls._tables[codec]
 
     def decode(self, codec="utf-8", errors="strict"):
+        codec, errors = _plain(codec), _plain(errors)
         if errors != "strict":
             raise S.Unsupported("bytes.decode of a symbolic byte with an error handler")
-        tab = self.table(str(codec))
+        tab = self.table(codec)
         v = self.value.z
         undefined = [b for b, cp in enumerate(tab) if cp is None]
         if undefined and S.cur().decide(z3.Or(*[v == b for b in undefined])):
@@ -710,38 +711,55 @@ class _CodePageByte:
         return term
 
 
+def _plain(x):
+    return x.concrete() if isinstance(x, S.CharStr) else x
+
+
+class _PlainBytes(bytes):
+    """concrete bytes made by lifted code: codec names that were string literals there arrive as
+    symbolic-string constants"""
+
+    def decode(self, encoding="utf-8", errors="strict"):
+        return S.CharStr(bytes.decode(self, _plain(encoding), _plain(errors)))
+
+
 def _rtf_bytes(x=b"", *a):
     """the name ``bytes`` in the lifted RTF methods: bytes([symbolic int]) -> _CodePageByte, with the
     builtin's range check; everything else is the builtin"""
     if isinstance(x, list) and len(x) == 1 and isinstance(x[0], S.SymInt) and not a:
         v = S._const_or_self(x[0])
         if isinstance(v, int):
-            return bytes([v])
+            return _PlainBytes([v])
         if not S.cur().decide(z3.And(v.z >= 0, v.z < 256)):
             raise ValueError("bytes must be in range(0, 256)")
         return _CodePageByte(v)
-    return bytes(x, *a)
+    return _PlainBytes(bytes(x, *[_plain(y) for y in a]))
 
 
 def _code_page_selftest(m, lifted, codecs_):
-    """translator validation: the lifted _decode_hex_escape (over _rtf_bytes / _CodePageByte with the
-    if-chain evaluated by z3 on a pinned value) == the real method, for all 256 bytes of each codec"""
+    """translator validation, all 256 bytes of each codec: (a) the if-chain of _CodePageByte, evaluated
+    by z3 on a pinned byte, is what the codec itself decodes the byte to; (b) the lifted
+    _decode_hex_escape on concrete digits returns what the real method returns"""
     n = 0
+    v = z3.Int("b")
     for codec in codecs_:
         real = m._RtfParser(b"")
         real._codec = codec
         tab = _CodePageByte.table(codec)
+        chain = _CodePageByte.chain(tab, v)
         for b in range(256):
-            want = real._decode_hex_escape("%02x" % b)
-            cp = tab[b] if tab[b] is not None else b
-            v = z3.Int("b")
-            got = z3.simplify(z3.substitute(_CodePageByte.chain(tab, v), (v, z3.IntVal(b)))).as_long()
-            if not (want == chr(cp) == chr(got if tab[b] is not None else b)):
-                raise AssertionError(f"code page model differs for {codec} byte {b:#x}: {want!r} vs {cp:#x}/{got:#x}")
+            try:
+                own = ord(bytes([b]).decode(codec))
+            except UnicodeDecodeError:
+                own = None
+            got = z3.simplify(z3.substitute(chain, (v, z3.IntVal(b)))).as_long()
+            if own != tab[b] or (own is not None and got != own):
+                raise AssertionError(f"code page model differs for {codec} byte {b:#x}: {own} vs {tab[b]} / {got}")
             p = object.__new__(m._RtfParser)
             p._codec = codec
-            if str(lifted(p, S.CharStr("%02X" % b))) != want:
-                raise AssertionError(f"lifted _decode_hex_escape differs for {codec} byte {b:#x}")
+            want, have = real._decode_hex_escape("%02x" % b), str(lifted(p, S.CharStr("%02X" % b)))
+            if want != have:
+                raise AssertionError(f"lifted _decode_hex_escape differs for {codec} byte {b:#x}: {want!r} vs {have!r}")
             n += 1
     return n
 
@@ -749,38 +767,46 @@ def _code_page_selftest(m, lifted, codecs_):
 _RTF_LIFT = {}
 
 
+def _rtf_lift_once(m):
+    import codecs as _codecs
+    from vf import lift
+    L = {"chr": _Late()}
+    regex_globals = _rtf_regex_globals(m)
+    codecs_ns = types.SimpleNamespace(
+        lookup=lambda name: _codecs.lookup(name.concrete() if isinstance(name, S.CharStr) else name))
+    ns = dict(int=S.IntShadow, chr=L["chr"], re=SymReModule, len=len, bytes=_rtf_bytes, codecs=codecs_ns)
+    for g in regex_globals:
+        ns[g] = SymRegex(getattr(m, g))
+    if hasattr(m, "_combine_surrogates"):
+        _combine_selftest(m._combine_surrogates)
+        L["combine"] = _Late()
+        ns["_combine_surrogates"] = L["combine"]
+    for name in _rtf_lifted_names(m):
+        L[name] = lift.lift(getattr(m._RtfParser, name), **ns)
+    p0 = m._RtfParser(b"")
+    L["codec"] = getattr(p0, "_codec", None)
+    L["special"] = [(SymRegex(rx), S.CharStr(ch)) for rx, ch in p0._special_char_patterns]
+    value = r"((?:\\.|[^}\\])*)"
+    _regex_runtime_selftest([getattr(m, g) for g in regex_globals] +
+                            [rx for rx, _ in p0._special_char_patterns[:8]] +
+                            [re.compile(r"\{\\title\s+" + value + r"\}", re.I | re.S),
+                             re.compile(r"\{\\[*]?\\?category\s+" + value + r"\}", re.I | re.S)])
+    if "_decode_hex_escape" in L:
+        L["chr"].target = chr
+        _code_page_selftest(m, L["_decode_hex_escape"], (L["codec"] or "cp1252", "cp1250", "cp1251", "cp932", "latin-1"))
+    _RTF_LIFT.update(L)
+
+
 def _rtf_lifted_parser(ctx, chr_model):
     """an _RtfParser whose text-stripping methods, information-group reader, \\'hh decoder and code page
     detection are the module's own source lifted to symbolic strings; regex objects -> SymRegex over
     the same pattern text (lifted once per process)"""
-    import codecs as _codecs
-    from vf import lift
     m = _rtf()
     if not _RTF_LIFT:
-        L = {"chr": _Late()}
-        regex_globals = _rtf_regex_globals(m)
-        codecs_ns = types.SimpleNamespace(
-            lookup=lambda name: _codecs.lookup(name.concrete() if isinstance(name, S.CharStr) else name))
-        ns = dict(int=S.IntShadow, chr=L["chr"], re=SymReModule, len=len, bytes=_rtf_bytes, codecs=codecs_ns)
-        for g in regex_globals:
-            ns[g] = SymRegex(getattr(m, g))
-        if hasattr(m, "_combine_surrogates"):
-            _combine_selftest(m._combine_surrogates)
-            L["combine"] = _Late()
-            ns["_combine_surrogates"] = L["combine"]
-        for name in _RTF_LIFTED:
-            L[name] = lift.lift(getattr(m._RtfParser, name), **ns)
-        p0 = m._RtfParser(b"")
-        L["codec"] = p0._codec
-        L["special"] = [(SymRegex(rx), S.CharStr(ch)) for rx, ch in p0._special_char_patterns]
-        value = r"((?:\\.|[^}\\])*)"
-        _regex_runtime_selftest([getattr(m, g) for g in regex_globals] +
-                                [rx for rx, _ in p0._special_char_patterns[:8]] +
-                                [re.compile(r"\{\\title\s+" + value + r"\}", re.I | re.S),
-                                 re.compile(r"\{\\[*]?\\?category\s+" + value + r"\}", re.I | re.S)])
-        L["chr"].target = chr
-        _code_page_selftest(m, L["_decode_hex_escape"], (p0._codec, "cp1250", "cp1251", "cp932", "latin-1"))
-        _RTF_LIFT.update(L)
+        try:
+            _rtf_lift_once(m)
+        except AssertionError as e:          # a failed translator validation is a harness fault
+            raise S.Unsupported("self-test failed: " + str(e))
     L = _RTF_LIFT
     L["chr"].target = chr_model
     if L.get("combine"):
@@ -798,7 +824,7 @@ def _rtf_lifted_parser(ctx, chr_model):
     def bind(name):
         fn = L[name]
         return lambda *a, **k: fn(p, *a, **k)
-    for name in _RTF_LIFTED:
+    for name in _rtf_lifted_names(m):
         setattr(p, name, bind(name))
     p._special_char_patterns = L["special"]
     ctx.hash_universe = set(m._RtfParser.SPECIAL_CHARS)
@@ -1980,6 +2006,7 @@ def _k4x_targets():
     for f in ("docx", "pptx"):
         out.append(importlib.import_module(ex + f"ms_modern.{f}_extractor")._extract_metadata_from_context)
     out.append(importlib.import_module(ex + "ms_modern.xlsx_extractor")._extract_metadata_from_workbook)
+    out.append(importlib.import_module(ex + "ms_modern.xlsx_extractor")._core_dates_present)
     out.append(importlib.import_module(ex + "epub_extractor")._EpubContext._parse_metadata)
     return out
 
@@ -2149,6 +2176,15 @@ def _strip_ws(x):
     return S.CharStr(cs[i:j])
 
 
+F_RTF_INFO_CUT = "C04-rtf-info-group-cut-at-escaped-closing-brace"
+_RTF_PROPS = ("title", "author", "subject", "keywords", "description")
+_RTF_LEXEME_KINDS = ("plain", "hex", "unicode", "escaped")
+
+
+def _k4r_parts(tier):
+    return [{"focus": f, "kind0": k} for f in range(len(_RTF_PROPS)) for k in range(len(_RTF_LEXEME_KINDS))]
+
+
 def _hex_digit(ctx, name):
     """one hexadecimal digit chosen by the solver: (character, value)"""
     c = ctx.fresh_int(name, 48, 102)
@@ -2166,23 +2202,30 @@ def k4_rtf_properties(ctx):
     character, \\\\ \\{ \\} literal characters)"""
     m = _rtf()
     ctx.decision_memo = {}
-    props = ("title", "author", "subject", "keywords", "description")
-    focus = props[ctx.choice("focus", len(props))]
+    props = _RTF_PROPS
+    # the property under focus and the kind of the first lexeme come with the part (parallel parts)
+    focus = props[ctx.params["focus"] if "focus" in ctx.params else ctx.choice("focus", len(props))]
     K = 1 + ctx.choice("n_lexemes", ctx.params.get("max_lexemes", 2))
-    kinds = ["plain", "hex", "unicode", "escaped"]
+    kinds = _RTF_LEXEME_KINDS
     src = "" if ctx.concrete else S.CharStr("")
     expected = []              # code points (python int / z3 term)
     free = []                  # indices in `expected` left unconstrained (undefined code page bytes)
+    shape = []                 # per lexeme: (kind, escaped character or None, "is a blank": bool / z3 Bool)
     for i in range(K):
-        kind = kinds[ctx.choice(f"kind{i}", len(kinds))]
+        if i == 0 and "kind0" in ctx.params:
+            kind = kinds[ctx.params["kind0"]]
+        else:
+            kind = kinds[ctx.choice(f"kind{i}", len(kinds))]
         if kind == "plain":
             t = ctx.fresh_chars(f"plain{i}", 1, 32, 126)
             if ctx.concrete:
                 ctx.assume(t not in "\\{}")
                 expected.append(ord(t))
+                shape.append((kind, None, t == " "))
             else:
                 ctx.assume(z3.And(*[t.c[0].z != ord(x) for x in "\\{}"]))
                 expected.append(t.c[0].z)
+                shape.append((kind, None, t.c[0].z == 32))
             src = src + t
         elif kind == "hex":
             (c1, v1), (c2, v2) = _hex_digit(ctx, f"hex{i}a"), _hex_digit(ctx, f"hex{i}b")
@@ -2204,6 +2247,7 @@ def k4_rtf_properties(ctx):
                         cp = z3.If(byte.z == 0x80 + k, z3.IntVal(v), cp)
                 expected.append(cp)
             src = src + "\\'" + c1 + c2
+            shape.append((kind, None, False))
         elif kind == "unicode":
             nd = 3 + ctx.choice(f"uni{i}_digits", 3)
             d = _alphabet(ctx, ctx.fresh_chars(f"uni{i}", nd, 48, 57), "", ((48, 57),))
@@ -2220,10 +2264,30 @@ def k4_rtf_properties(ctx):
                 ctx.assume(z3.And(n < 65536, n >= 32, z3.Not(z3.And(n >= 0xD800, n <= 0xDFFF))))
                 expected.append(n)
             src = src + "\\u" + d + "?"
+            shape.append((kind, None, False))
         else:
             ch = "\\{}"[ctx.choice(f"esc{i}", 3)]
             expected.append(ord(ch))
             src = src + "\\" + ch
+            shape.append((kind, ch, False))
+    if _known(ctx, F_RTF_INFO_CUT):
+        # excluded class (recorded finding): an escaped closing brace followed, after blanks only, by
+        # a lexeme that starts with a backslash
+        hits = []
+        for a, (kind_a, ch_a, _) in enumerate(shape):
+            if ch_a != "}":
+                continue
+            for b in range(a + 1, len(shape)):
+                if shape[b][0] != "plain":
+                    blanks = [shape[t][2] for t in range(a + 1, b)]
+                    if not any(x is False for x in blanks):
+                        zs = [x for x in blanks if x is not True]
+                        hits.append(True if not zs else (z3.And(*zs) if len(zs) > 1 else zs[0]))
+                    break
+        if any(h is True for h in hits):
+            ctx.assume(False)
+        elif hits:
+            ctx.assume(z3.Not(z3.Or(*hits)))
     fixed = dict(_FIXED)
     groups = []
     for p in props:
@@ -2238,7 +2302,8 @@ def k4_rtf_properties(ctx):
             md = res[0].get_metadata()
         else:
             p = _rtf_lifted_parser(ctx, _ChrModel(ctx, False))
-            p._detect_code_page(text)          # as parse() does before it reads the information group
+            if hasattr(p, "_detect_code_page"):
+                p._detect_code_page(text)      # as parse() does before it reads the information group
             p._extract_metadata(text)
             md = p.metadata
     except S.Unsupported:
@@ -2264,10 +2329,15 @@ def k4_rtf_properties(ctx):
                     expected="".join(chr(c) for c in expected) if all(isinstance(c, int) for c in expected) else "<symbolic>")
 
 
+def _k4r_targets():
+    m = _rtf()
+    return [getattr(m._RtfParser, n) for n in _rtf_lifted_names(m)
+            if n not in ("_strip_rtf_simple", "_remove_ignorable_groups")]
+
+
 def _k4_other_targets():
-    h, m = _html(), _rtf()
-    return [h._HtmlTextExtractor._extract_metadata, h._HtmlTextExtractor._get_node_text,
-            m._RtfParser._extract_metadata]
+    h = _html()
+    return [h._HtmlTextExtractor._extract_metadata, h._HtmlTextExtractor._get_node_text]
 
 
 # =======================================================================================
@@ -2277,7 +2347,8 @@ def _k4_other_targets():
 def _k3_targets():
     m = _rtf()
     return [m._RtfParser._strip_rtf_full_with_pages, m._RtfParser._strip_rtf_simple,
-            m._RtfParser._remove_ignorable_groups, m._RtfParser._is_skip_destination]
+            m._RtfParser._remove_ignorable_groups, m._RtfParser._is_skip_destination] + \
+        [getattr(m._RtfParser, n) for n in ("_decode_hex_escape",) if hasattr(m._RtfParser, n)]
 
 
 KERNELS = [
@@ -2327,8 +2398,8 @@ KERNELS = [
            choices=["extractor (router registry)", "path form: None, relative, absolute, archive!/member, non-ASCII, "
                     "no extension, hidden file, ./ and // and compound extension"],
            assumptions=["one fixture file of the repository's test resources per extractor",
-                        "archive members: named <archive path>!/<member>; without an archive path only 'nothing "
-                        "derived from the working directory' is demanded"],
+                        "archive members: named <archive path>!/<member>; without an archive path: no field "
+                        "derived from the working directory"],
            outside=["results of damaged-but-accepted files"]),
     Kernel("K3", "RTF strippers never put a surrogate code point into extracted text (UTF-8 encodable)",
            k3_unicode, targets=_k3_targets, parts=_k3_parts,
@@ -2340,12 +2411,15 @@ KERNELS = [
            stubs=["regex objects of rtf_extractor -> SymRegex over the same pattern text (stdlib parser, "
                   "backtracking order of re; validated against re)",
                   "int -> symrun.IntShadow, chr -> range-checked chr on symbolic ints",
+                  "bytes([b]).decode(codec) on a symbolic byte (_decode_hex_escape) -> the codec's own 256-entry "
+                  "table read off the codec at run time; lifted decoder compared with the real one on all bytes",
                   "_combine_surrogates (UTF-16 codec round trip) -> code-walking model on symbolic strings, compared "
                   "with the real function on all strings of <= 4 items over a surrogate / BOM / astral alphabet in "
                   "every run; concrete replay uses the real function through read_rtf"],
            assumptions=["input characters are no surrogates (they come out of bytes.decode)",
                         "_strip_rtf_full_with_pages / _strip_rtf_simple / _remove_ignorable_groups / "
-                        "_is_skip_destination are the module's own source lifted to symbolic strings"],
+                        "_is_skip_destination / _decode_hex_escape are the module's own source lifted to symbolic "
+                        "strings; code page cp1252 (what the parser starts with)"],
            outside=["fragments longer than the bound", "doc / ppt decoders with errors='replace' (decoder contract)",
                     "7z member names (util/sevenzip.py builds names with chr() of UTF-16 code units; a name is "
                     "not a text accessor)"],
@@ -2360,13 +2434,15 @@ KERNELS = [
            stubs=["ms_modern.*.int -> symrun.IntShadow",
                   "ODF: extract_odf_metadata runs as its own source lifted to symbolic strings (vf/lift.py) in "
                   "symbolic runs",
-                  "XLSX: workbook.properties as openpyxl hands it over (symbolic run: attribute bag; concrete "
-                  "run: openpyxl's own DocumentProperties.from_tree on the written part)"],
+                  "EPUB: _EpubContext._parse_metadata runs as its own source lifted in symbolic runs",
+                  "XLSX: symbolic run: _extract_metadata_from_workbook on workbook.properties as openpyxl hands it "
+                  "over (attribute bag), its two date flags from _core_dates_present on the written package, as "
+                  "read_xlsx does; concrete run: read_xlsx on the written package"],
            assumptions=["the properties part is written from the format specifications (ECMA-376-2 core properties, "
                         "ODF 1.2 office:meta, EPUB 3 package metadata), not from the readers' tag tables",
                         "EPUB values compare modulo surrounding white space (EPUB 3.3 trims them)",
-                        "repeated ODF meta:keyword elements are reported joined by ', ' in document order; repeated "
-                        "EPUB dc:creator / dc:subject: each stored value must occur in the reported string"],
+                        "repeated ODF meta:keyword elements and repeated EPUB dc:creator / dc:subject elements are "
+                        "reported joined by ', ' in document order (EPUB: blank values left out)"],
            outside=["OLE summary information (doc, xls, ppt, msg)", "PDF document information",
                     "characters outside 32..126"]),
     Kernel("K4h", "HTML: title and meta author / keywords / description reported unchanged; meta names match "
@@ -2382,15 +2458,26 @@ KERNELS = [
            assumptions=["values compare modulo surrounding white space"],
            outside=["characters outside 32..126", "more than one meta element of a name"]),
     Kernel("K4r", "RTF information group: title / author / subject / keywords / doccomm decoded per RTF 1.9.1",
-           k4_rtf_properties, targets=_k4_other_targets,
+           k4_rtf_properties, targets=_k4r_targets, parts=_k4r_parts,
            bounds={"quick": {"max_lexemes": 2}, "thorough": {"max_lexemes": 3}},
            perturb=["expect_upper"],
            symbolic=["plain characters (32..126 without \\ { })", "both hex digits of \\'hh", "the digits of \\uN"],
-           choices=["property under focus", "number and kind of lexemes (plain, \\'hh, \\uN?, \\\\ \\{ \\})"],
-           stubs=["regex objects and re.search calls of _extract_metadata -> SymRegex; int / chr shadows; "
+           choices=["property under focus and kind of the first lexeme (one part each)",
+                    "number and kind of lexemes (plain, \\'hh, \\uN?, \\\\ \\{ \\})"],
+           stubs=["_extract_metadata, the body scanner it calls (_strip_rtf_full_with_pages, _is_skip_destination), "
+                  "_decode_hex_escape and _detect_code_page are the module's own source lifted to symbolic strings; "
+                  "regex objects and re.search calls -> SymRegex; int / chr shadows",
+                  "bytes([b]).decode(codec) on a symbolic byte -> the codec's own 256-entry table, read off the "
+                  "codec at run time (if-chain; undefined bytes raise UnicodeDecodeError); the lifted decoder is "
+                  "compared with the real one on all 256 bytes of cp1252, cp1250, cp1251, cp932, latin-1 in every run",
                   "concrete run: read_rtf on the written document"],
            assumptions=["document declares \\ansi\\ansicpg1252; bytes undefined in Windows-1252 are not judged",
-                        "values compare modulo surrounding white space; \\uc1 (one fallback character)"],
+                        "values compare modulo surrounding white space (as str.strip); \\uc1 (one fallback character)",
+                        "the reference decoder (code page table included) is written from RTF 1.9.1 / the "
+                        "Windows-1252 definition, not taken from the codec",
+                        "while the recorded finding C04-rtf-info-group-cut-at-escaped-closing-brace reproduces: "
+                        "values in which an escaped closing brace is followed, after blanks only, by a lexeme that "
+                        "starts with a backslash are left out (nothing else is)"],
            outside=["\\~ \\_ \\- and other symbol control words inside values", "other code pages"],
            timeout={"quick": 200, "thorough": 1500}),
 ]
